@@ -171,3 +171,56 @@ Proof.
   - cbn [strided option_map fold_left]. reflexivity.
   - up p. rewrite Rp_div_ok; [reflexivity|]. apply not_0_IZR. lia.
 Qed.
+
+(* ------------------------------------------------------------ the clauses collected *)
+Theorem defined_scalar p :
+  (forall x, -1 < x -> real_log1p (Rp_ops p) x = real_log1p R_ops x) /\
+  (forall x, real_asinh (Rp_ops p) x = real_asinh R_ops x) /\
+  (forall x, 1 <= x -> real_acosh (Rp_ops p) x = real_acosh R_ops x) /\
+  (forall x, -1 < x < 1 -> real_atanh (Rp_ops p) x = real_atanh R_ops x) /\
+  (forall x, real_expm1 (Rp_ops p) x = real_expm1 R_ops x) /\
+  (forall y x, real_atan2 (Rp_ops p) y x = real_atan2 R_ops y x).
+Proof.
+  repeat split; intros.
+  - apply log1p_defined; auto.
+  - apply asinh_defined.
+  - apply acosh_defined; auto.
+  - apply atanh_defined; auto.
+  - apply expm1_defined.
+  - apply atan2_defined.
+Qed.
+Theorem defined_geometry p :
+  (forall x y, real_norm2 (Rp_ops p) x y = real_norm2 R_ops x y) /\
+  (forall x y z, real_norm3 (Rp_ops p) x y z = real_norm3 R_ops x y z) /\
+  (forall n l c, real_norm_ (Rp_ops p) n l c = real_norm_ R_ops n l c /\ real_norm (Rp_ops p) n l = real_norm R_ops n l) /\
+  (forall n l c, real_mean_ (Rp_ops p) n l c = real_mean_ R_ops n l c) /\
+  (forall x y, real_cart2pol (Rp_ops p) x y = real_cart2pol R_ops x y) /\
+  (forall x y z, real_cart2sph (Rp_ops p) x y z = real_cart2sph R_ops x y z) /\
+  (forall r t, real_pol2cart (Rp_ops p) r t = real_pol2cart R_ops r t) /\
+  (forall r t a, real_sph2cart (Rp_ops p) r t a = real_sph2cart R_ops r t a).
+Proof.
+  split; [exact (norm2_defined p)|]. split; [exact (norm3_defined p)|]. split; [exact (norm_defined p)|].
+  split; [exact (mean_defined p)|]. split; [exact (cart2pol_defined p)|]. split; [exact (cart2sph_defined p)|].
+  split; [exact (pol2cart_defined p) | exact (sph2cart_defined p)].
+Qed.
+
+(* outside the domain the C returns NaN / +-inf on purpose: those are exactly the branches that DO divide by zero
+   (A_REAL_INF is 1/0-like, A_REAL_NAN = 0 * inf), so over the poisoned reals they return the poison *)
+Theorem domain_edges p :
+  real_acosh (Rp_ops p) (1 / 2) = c_nan (Rp_ops p) /\ real_atanh (Rp_ops p) 2 = c_nan (Rp_ops p) /\
+  real_atanh (Rp_ops p) 1 = c_inf (Rp_ops p) /\ real_atanh (Rp_ops p) (-1) = - c_inf (Rp_ops p) /\ c_inf (Rp_ops p) = p.
+Proof.
+  assert (A2 : Rabs 2 = 2) by (apply Rabs_right; lra). assert (A1 : Rabs 1 = 1) by (apply Rabs_right; lra).
+  assert (Am : Rabs (-1) = 1) by (rewrite Rabs_left; lra).
+  repeat split.
+  - unfold real_acosh. rewrite cse_p. up p. rewrite Rp_div_ok by lra.
+    replace (1 / / 67108864) with 67108864 by field.
+    destruct (Rltb_spec 67108864 (1 / 2)); [lra|]. destruct (Rltb_spec 2 (1 / 2)); [lra|].
+    destruct (Rltb_spec 1 (1 / 2)); [lra|]. destruct (Reqb_spec (1 / 2) 1); [lra|]. reflexivity.
+  - unfold real_atanh. up p. rewrite A2. destruct (Rltb_spec 1 2); [reflexivity|lra].
+  - unfold real_atanh. up p. rewrite A1. destruct (Rltb_spec 1 1); [lra|]. destruct (Reqb_spec 1 1); [|lra].
+    destruct (Rltb_spec 1 0); [lra|]. reflexivity.
+  - unfold real_atanh. up p. rewrite Am. destruct (Rltb_spec 1 1); [lra|]. destruct (Reqb_spec 1 1); [|lra].
+    destruct (Rltb_spec (-1) 0); [|lra]. reflexivity.
+  - unfold c_inf. up p. unfold Rp_div. destruct (Req_EM_T 0 0); [reflexivity|lra].
+Qed.
